@@ -14,3 +14,39 @@ REG.contract(
     note="dns.ttl.from_text: whatever the text (BIND unit syntax, any Unicode decimal digits, any length), the result is a "
          "TTL in 0..2**32-1 or BadTTL is raised - no other exception escapes",
 )
+
+# ---- field validators of dns.rdata.Rdata: every integer field a record constructor accepts fits its wire width (C02, C04)
+for _meth, _hi in (("_as_uint8", 255), ("_as_uint16", 65535), ("_as_uint32", 4294967295), ("_as_uint48", 281474976710655)):
+    REG.contract(
+        f"dns.rdata.Rdata.{_meth}",
+        params={"cls": T.const(None), "value": T.int},
+        raises=[("builtins.ValueError", f"value < 0 or value > {_hi}")],
+        returns=T.int,
+        ensures=["result == value", f"0 <= result and result <= {_hi}"],
+        props=["C02", "C04"],
+        note=f"{_meth}: accepts exactly 0..{_hi} and returns the value unchanged, so struct.pack of the field's wire width "
+             "cannot fail on a constructed record; anything else is ValueError",
+    )
+
+REG.contract(
+    "dns.rdata.Rdata._as_int",
+    params={"cls": T.const(None), "value": T.int, "low": T.int, "high": T.int},
+    raises=[("builtins.ValueError", "value < low or value > high")],
+    returns=T.int,
+    ensures=["result == value", "low <= result and result <= high"],
+    props=["C02", "C04"],
+    note="_as_int with both bounds given: accepts exactly low..high",
+)
+
+from dns.rdata import Rdata as _Rdata  # noqa: E402
+
+REG.contract(
+    "dns.rdata.Rdata._as_ttl#int",
+    target="dns.rdata.Rdata._as_ttl",
+    params={"cls": T.const(_Rdata), "value": T.int},
+    raises=[("builtins.ValueError", "value < 0 or value > 4294967295")],
+    returns=T.int,
+    ensures=["result == value", "0 <= result and result <= 4294967295"],
+    props=["C02", "C09"],
+    note="_as_ttl of an integer: 0..2**32-1 (dns.ttl.MAX_TTL, the range dns.ttl.from_text produces), value unchanged",
+)
